@@ -291,6 +291,9 @@ def bash_writes(body, where):
             m2 = re.search(r'echo -n "([^"$]*)\$\{key\}=" >&', c)
             if m2:
                 out.append((i, m2.group(1), m2.group(1) + "${key}="))
+            elif re.search(r"printf '([^'%$]*)%s=%s\\n' \"\$\{key\}\" ", c):
+                m3 = re.search(r"printf '([^'%$]*)%s=%s\\n' ", c)
+                out.append((i, m3.group(1), m3.group(1) + "%s="))
             elif re.search(r"echo \$\{!key\} >&", c) or re.search(r"^\s*exec 2>&", c):
                 pass      # continuation of the key line / die's stderr (free text up to "dead")
             elif "printf(\"receive_env %i\\n%s\"" in c:
